@@ -6,6 +6,7 @@ import Lean.Data.Json
 import ErgoModel.Exec
 import ErgoModel.View
 import ErgoModel.Storage
+import ErgoModel.Input
 open Lean
 namespace Ergo.Wire
 
@@ -111,11 +112,21 @@ def flagsOf (j : Json) : Flags :=
   { title := str j "title", body := str j "body", epic := str j "epic", state := str j "state", claim := str j "claim",
     resultPath := str j "result_path", resultSummary := str j "result_summary" }
 
+def unhexS (s : String) : List UInt8 :=
+  let hv (c : Char) : Nat := if c.isDigit then c.toNat - '0'.toNat else if 'a' ≤ c ∧ c ≤ 'f' then c.toNat - 'a'.toNat + 10 else c.toNat - 'A'.toNat + 10
+  let rec go : List Char → List UInt8
+    | a :: b :: rest => UInt8.ofNat (hv a * 16 + hv b) :: go rest
+    | _ => []
+  go s.toList
+
 def rawInputOf (j : Json) : RawInput :=
   { bodyStdin := bool j "body_stdin", piped := bool j "piped",
     flags := match j.getObjVal? "flags" with | .ok f => flagsOf f | _ => {},
     stdinText := str j "stdin_text",
-    json := match j.getObjVal? "json" with | .ok (.obj o) => some (taskInputOf (.obj o)) | _ => none }
+    -- the document on stdin as the bytes the real command got (decoded by ErgoModel.Input), else what the harness says it holds
+    json := match j.getObjVal? "stdin_hex" with
+      | .ok (.str h) => Ergo.Input.parseTaskInput (unhexS h)
+      | _ => match j.getObjVal? "json" with | .ok (.obj o) => some (taskInputOf (.obj o)) | _ => none }
 
 def planTaskOf (j : Json) : PlanTask :=
   { title := optStr j "title", body := optStr j "body", after := strs j "after" }
@@ -130,7 +141,9 @@ def requestOf (j : Json) : Option Request :=
   | "claim" => some (.claim (str j "id"))
   | "claim_oldest" => some (.claimOldest (str j "epic"))
   | "sequence" => some (.sequence (strs j "args"))
-  | "plan" => some (.plan (match j.getObjVal? "plan" with | .ok (.obj o) => some (planOf (.obj o)) | _ => none))
+  | "plan" => some (.plan (match j.getObjVal? "stdin_hex" with
+      | .ok (.str h) => Ergo.Input.parsePlanInput (unhexS h)
+      | _ => match j.getObjVal? "plan" with | .ok (.obj o) => some (planOf (.obj o)) | _ => none))
   | "prune" => some (.prune (bool j "yes"))
   | "compact" => some .compact
   | _ => none
